@@ -1157,7 +1157,9 @@ class Alias(ObjectAliasMixin):
 
         See also: [`canonical_path`][griffe.Alias.canonical_path].
         """
-        return f"{self.parent.path}.{self.name}"  # type: ignore[union-attr]
+        if self.parent is None:
+            return self.name
+        return f"{self.parent.path}.{self.name}"
 
     @property
     def modules_collection(self) -> ModulesCollection:
